@@ -50,7 +50,7 @@ class Rec(torch.nn.Module):
         n = X.shape[0] // 2
         ids = [dec(X[k]) for k in range(X.shape[0])]
         ev = dict(ev="forward", x=[ids[k][0] for k in range(n)], r=[[ids[k][0], ids[k][1] - self.R] for k in range(n, 2 * n)],
-                  a=[], a2=[], xs=[ids[k][1] for k in range(n)])
+                  a=[], a2=[], xs=[ids[k][1] for k in range(n)], wa=bool(getattr(self, "want_args", False)))
         if a is not None:
             v = [int(t) for t in a.reshape(-1).tolist()]
             ev["a"], ev["a2"] = v[:n], v[n:]
@@ -68,6 +68,7 @@ def one_call(c, cid):
     ex = c["ex"]
     X = torch.stack([enc(e, SMARK) for e in ex])
     args = (torch.tensor([float(e) for e in ex], dtype=torch.float64),) if c["args"] else None
+    model.want_args = bool(c["args"])
 
     def refs(Xb, n=1, random_state=None, **kw):
         out = []
